@@ -29,6 +29,8 @@ CHAIN = [
 
 
 def _mentions_marker(model: Model, folder: Folder, fi, expr: ast.AST, marker: str) -> bool:
+    # a test hoisted into a local (`flag = MARKER in attributes; if flag:`) is the same test
+    expr = Loc(model, fi).expanded(expr)
     for n in ast.walk(expr):
         if isinstance(n, ast.Attribute) and n.attr == marker:
             return True
@@ -327,7 +329,19 @@ def _handler_plan(model: Model, parse, h: ast.ExceptHandler) -> list[tuple[str, 
     """Sequence of (flag tested, effect) for an except arm, plus the tail."""
     plan: list[tuple[str, str]] = []
     mod = parse.module
-    for st in h.body:
+    # an if / elif / else ladder whose branches leave the arm reads like consecutive ifs
+    flat: list[ast.stmt] = []
+
+    def flatten(sts: list[ast.stmt]) -> None:
+        for st in sts:
+            flat.append(st)
+            if isinstance(st, ast.If) and st.orelse:
+                flatten(st.orelse)
+
+    flatten(h.body)
+    for st in flat:
+        if isinstance(st, ast.Pass):
+            continue
         if isinstance(st, ast.If):
             flags = [n.attr for n in ast.walk(st.test) if isinstance(n, ast.Attribute) and n.attr in ('TREAT_AS_WITHDRAW', 'DISCARD')]
             eff = []
